@@ -35,3 +35,58 @@ def _same(eng, st, args, kwargs):
         return BoolV(to_dyn(a).term == to_dyn(b).term)
     except Unsupported:
         return BoolV(False)
+
+
+@spec('key_at')
+def _key_at(eng, st, args, kwargs):
+    """j-th key of a dict in insertion order."""
+    from .values import DictOps, KDict
+    d, j = args
+    ops = DictOps(d.kind)
+    return V(d.kind.key, z3.Select(ops.keys(d.term), eng.as_int(j, st)))
+
+
+@spec('call')
+def _call(eng, st, args, kwargs):
+    """Value returned by calling an unknown callable with the given (packed) arguments."""
+    fn, *rest = args
+    return eng.call_unknown(fn, rest, {}, st)
+
+
+@spec('call_raises')
+def _call_raises(eng, st, args, kwargs):
+    from .values import to_dyn, DynS, KDyn, KFn
+    fn, *rest = args
+    fid = DynS.fid(fn.term) if fn.kind == KDyn else fn.term
+    dargs = [to_dyn(a).term for a in rest]
+    rname = f'raises{len(dargs)}'
+    if rname not in eng.uf_cache:
+        eng.uf_cache[rname] = z3.Function(rname, z3.IntSort(), *([DynS] * len(dargs)), z3.BoolSort())
+    return BoolV(eng.uf_cache[rname](fid, *dargs))
+
+
+@spec('calls_made')
+def _calls_made(eng, st, args, kwargs):
+    from .values import IntV
+    return IntV(eng.ghost_int(st, 'calls'))
+
+
+@spec('clock_reads')
+def _clock_reads(eng, st, args, kwargs):
+    from .values import IntV
+    return IntV(eng.ghost_int(st, 'clock'))
+
+
+@spec('clock_at')
+def _clock_at(eng, st, args, kwargs):
+    """Value returned by the i-th time.time() read (global read counter)."""
+    from .values import RealV
+    (i,) = args
+    f = eng.uf_cache.setdefault('clock_val', z3.Function('clock_val', z3.IntSort(), z3.RealSort()))
+    return RealV(f(eng.as_int(i, st)))
+
+
+@spec('same_dict')
+def _same_dict(eng, st, args, kwargs):
+    a, b = args
+    return BoolV(a.term == b.term)
